@@ -58,6 +58,8 @@ async def annotating_coercer(exception, error):
 
 
 ENG = build(SDL, "c15", custom_default_resolver=cresolver, error_coercer=annotating_coercer)   # default lru cache: the parsed documents (and their validation errors) are shared between requests
+Scalar("My", schema_name="c15_seq")(world.MyScalar)
+ENG_SEQ = build(SDL, "c15_seq", custom_default_resolver=cresolver, error_coercer=annotating_coercer, coerce_list_concurrently=False, coerce_parent_concurrently=False)
 FRESH = build(SDL, "c15_fresh", custom_default_resolver=cresolver, query_cache_decorator=None, error_coercer=annotating_coercer)
 POOL = [
     ("query A($v: Int) { echoInt(v: $v) whoami n }", [("echoInt",), ("n",)]),
@@ -70,6 +72,14 @@ POOL = [
 LEAF = {"n": 3}
 MID = {"n": 2, "leaf": LEAF, "leaves": [LEAF, {"n": 4}]}
 DATA = {"n": 1, "nn": 4, "mid": MID, "mids": [MID, {"n": 5, "leaves": []}]}
+import copy  # noqa: E402
+PRISTINE = copy.deepcopy(DATA)
+CUR = [DATA]       # the application's data of the current run: objects (and lists) the resolvers hand out are shared by all requests of the run
+
+
+def fresh_data():
+    CUR[0] = copy.deepcopy(PRISTINE)
+    return CUR[0]
 
 
 def request(i, doc, v, s, fault, opsel, ng=2):
@@ -96,7 +106,7 @@ def request(i, doc, v, s, fault, opsel, ng=2):
 
 def run_one(eng, req, chooser=None):
     q, variables, ctx, op = req
-    return env.run(eng.execute(q, variables=dict(variables), context=ctx, operation_name=op, initial_value=DATA), chooser=chooser)
+    return env.run(eng.execute(q, variables=dict(variables), context=ctx, operation_name=op, initial_value=CUR[0]), chooser=chooser)
 
 
 def norm(r):
@@ -108,7 +118,7 @@ def norm(r):
 
 
 for _d in range(len(POOL)):
-    for _e in (ENG, FRESH):
+    for _e in (ENG, ENG_SEQ, FRESH):
         run_one(_e, request(0, _d, 1, True, 0, True))
 
 
@@ -124,7 +134,9 @@ TRIPLES = [(0, 0, 3), (1, 1, 1), (4, 0, 1)]
 
 FAULTS = [(0, 0), (1, 0), (2, 1), (0, 2), (3, 0), (3, 3)]
 SH15 = [{"docs": list(p), "f": list(f), "ng": ng} for ng in (1, 2) for p in PAIRS for f in FAULTS] + [{"docs": list(t), "f": list(f), "ng": 1} for t in TRIPLES for f in FAULTS[:3]]
-QUICK15 = [i for i, s in enumerate(SH15) if s["ng"] == 1 and len(s["docs"]) == 2 and ((s["f"] == [0, 0] and s["docs"] in ([0, 0], [1, 1], [2, 2], [4, 4], [0, 3], [3, 3], [5, 5], [5, 0])) or (s["docs"] == [0, 3] and s["f"] in ([2, 1], [3, 3])) or (s["docs"] == [1, 3] and s["f"] == [1, 0]))]
+# the same on an engine that coerces lists and parents sequentially (documents with lists)
+SH15 += [{"docs": list(p), "f": list(f), "ng": 1, "seq": True} for p in ((2, 2), (2, 1), (1, 3), (2, 0)) for f in ((0, 0), (1, 0))]
+QUICK15 = [i for i, s in enumerate(SH15) if s.get("seq") and s["f"] == [0, 0] and s["docs"] in ([2, 2], [2, 1])] + [i for i, s in enumerate(SH15) if not s.get("seq") and s["ng"] == 1 and len(s["docs"]) == 2 and ((s["f"] == [0, 0] and s["docs"] in ([0, 0], [1, 1], [2, 2], [4, 4], [0, 3], [3, 3], [5, 5], [5, 0])) or (s["docs"] == [0, 3] and s["f"] in ([2, 1], [3, 3])) or (s["docs"] == [1, 3] and s["f"] == [1, 0]))]
 
 
 @obligation(tier="quick", timeout=300, thorough_timeout=1500, shards=SH15, quick_shards=QUICK15,
@@ -147,6 +159,8 @@ def c15_concurrent(c0: int, c1: int, c2: int, c3: int, c4: int, c5: int, v0: int
     cs = [c0, c1, c2, c3, c4, c5]
     k = [0]
     MODULE_ERR[0] = MyErr("module-level", extensions={"code": 1})
+    eng = ENG_SEQ if shard().get("seq") else ENG
+    data = fresh_data()
 
     def chooser(n):
         x = cs[k[0]] if k[0] < len(cs) else 0
@@ -154,7 +168,7 @@ def c15_concurrent(c0: int, c1: int, c2: int, c3: int, c4: int, c5: int, v0: int
         return pick(x, n)
 
     async def together():
-        return await asyncio.gather(*[ENG.execute(q, variables=dict(va), context=ctx, operation_name=op, initial_value=DATA) for q, va, ctx, op in reqs])
+        return await asyncio.gather(*[eng.execute(q, variables=dict(va), context=ctx, operation_name=op, initial_value=data) for q, va, ctx, op in reqs])
     del LOG[:]
     loop = miniloop.MiniLoop(chooser=chooser)
     ok, got = safe(lambda: loop.run_until_complete(together()))
@@ -163,7 +177,7 @@ def c15_concurrent(c0: int, c1: int, c2: int, c3: int, c4: int, c5: int, v0: int
     if not ok:
         return verdict(False)
     for i, req in enumerate(reqs):
-        ok2, solo = safe(lambda: run_one(ENG, req))
+        ok2, solo = safe(lambda: run_one(eng, req))
         observe(("solo", i, solo))
         if not ok2 or norm(got[i]) != norm(solo):
             return verdict(False)
@@ -174,7 +188,10 @@ def c15_concurrent(c0: int, c1: int, c2: int, c3: int, c4: int, c5: int, v0: int
                 return verdict(False)
     # afterwards: a probe request behaves as on an engine that never saw the traffic
     probe = request(9, docs[0], 5, False, 0, True)
-    ok3, p1 = safe(lambda: run_one(ENG, probe))
+    ok3, p1 = safe(lambda: run_one(eng, probe))
+    # the application's own objects (what the resolvers returned, lists included) are exactly as before the traffic
+    intact = data == PRISTINE
+    fresh_data()
     ok4, p2 = safe(lambda: run_one(FRESH, probe))
-    observe(("probe", p1, p2))
-    return verdict(ok3 and ok4 and norm(p1) == norm(p2) and not loop.pending and all(t.done() for t in loop.tasks))
+    observe(("probe", p1, p2, intact))
+    return verdict(intact and ok3 and ok4 and norm(p1) == norm(p2) and not loop.pending and all(t.done() for t in loop.tasks))
